@@ -125,6 +125,22 @@ def _asmline_predicates(facts):
             if n.get("k") == "macro" and n["name"] == "matches":
                 t = norm(n)
                 if "AsmLine::" in t:
+                    # a pattern that binds the instruction and goes on to test it (a guard on its mnemonic) looks for one
+                    # particular instruction; it does not sort lines into code and non-code
+                    binds = False
+                    def rec(p):
+                        nonlocal binds
+                        if isinstance(p, dict):
+                            if p.get("k") == "tstruct" and p.get("segs", [])[-1:] == ["Instruction"] and any(e.get("k") == "ident" for e in p.get("elems", [])):
+                                binds = True
+                            for v in p.values():
+                                rec(v)
+                        elif isinstance(p, list):
+                            for x in p:
+                                rec(x)
+                    rec(n.get("pat"))
+                    if binds and n.get("guard") is not None:
+                        continue
                     out.append((fn, n, t))
             elif n.get("k") == "closure":
                 t = norm(n)
